@@ -11,6 +11,11 @@ var baseMix = Mix{InsertNew: 10, Overwrite: 3, DeletePresent: 6, DeleteAbsent: 3
 
 func withMix(m Mix, f func(*Mix)) Mix { f(&m); return m }
 
+// lightVariants: most histories store ints; some store another value type (a defect tied to the
+// value's size or layout - copying a value as one word, a leaf layout assumed for every V - must
+// not hide behind V = int). The collector-related checks on values are C18's.
+var lightVariants = []string{"", "", "", "", "", "string", "big", "empty", "bytes", "any"}
+
 var specs = []*PropSpec{
 	{
 		ID: "C01",
@@ -18,6 +23,7 @@ var specs = []*PropSpec{
 			AuditOps: []string{"sweep"}, AuditEvery: 6, ExcludeKF: true, Census: true},
 		Mix:       withMix(baseMix, func(m *Mix) { m.SearchAbsent = 7; m.DeleteAbsent = 5; m.SearchPresent = 3 }),
 		Families:  allFamilies,
+		Variants:  lightVariants,
 		Templates: []string{"longpath", "longpath", "fanupdown", "emptied"},
 		Rule: "rapid state machine over all tree kinds and key-universe profiles; non-trivial = the history deletes a present key and later searches or re-inserts that same key, " +
 			"and probes (Search/Delete) an absent key that shares at least one leading byte with a stored key on a tree of >= 2 keys; distinct by hash of the concrete op trace",
@@ -31,6 +37,7 @@ var specs = []*PropSpec{
 			AuditOps: []string{"scan"}, AuditEvery: 3, ExcludeKF: true, Census: true},
 		Mix:       withMix(baseMix, func(m *Mix) { m.Scan = 4; m.SearchAbsent = 0; m.SearchPresent = 0; m.DeleteAbsent = 1 }),
 		Families:  allFamilies,
+		Variants:  lightVariants,
 		Templates: []string{"fanupdown", "fanupdown", "emptied"},
 		Rule: "same history generator as C01 (inserts, overwrites, deletes, bulk grow/shrink) with All() and Backward() compared element by element (key form and value) with the independently sorted model after every 3rd op and at the end; " +
 			"non-trivial = a scan on >= 3 stored keys that happens after at least one successful delete; distinct by trace hash",
@@ -85,6 +92,7 @@ var specs = []*PropSpec{
 			m.DeleteAll = 2
 		}),
 		Families:  allFamilies,
+		Variants:  lightVariants,
 		Templates: []string{"emptied", "fanupdown"},
 		Rule: "histories over all kinds with Minimum/Maximum and TopK/BottomK(n), n in {0,1,size-1,size,size+1,size+17,2^32,random}; " +
 			"non-trivial = extremes were asserted both on a tree of size 0 or 1 and on a tree of size >= 2, after at least one successful delete; distinct by trace hash",
@@ -98,6 +106,7 @@ var specs = []*PropSpec{
 			ExcludeKF: true, Census: true},
 		Mix:       withMix(baseMix, func(m *Mix) { m.Size = 2; m.SearchAbsent = 1; m.SearchPresent = 1 }),
 		Families:  allFamilies,
+		Variants:  lightVariants,
 		Templates: []string{"longpath", "longpath", "fanupdown", "emptied"},
 		Rule: "histories over all kinds with Size() compared after every single op with the model cardinality, the number of pairs All() yields and the number of reachable leaves; " +
 			"non-trivial = the history exercised at least 3 of the 4 insertion paths (empty tree, leaf split, compressed-path split, plain child add; classified from consecutive structural dumps) and one failed delete; distinct by trace hash",
@@ -142,6 +151,7 @@ var specs = []*PropSpec{
 			ExcludeKF: true, Census: true},
 		Mix:       baseMix,
 		Families:  allFamilies,
+		Variants:  lightVariants,
 		Templates: []string{"longpath", "longpath", "fanupdown", "emptied"},
 		Rule: "histories over all kinds with the structural audit (dump == independently built compressed radix tree of the descent keys, counters, class capacity, leaf count == Size) after every op; " +
 			"non-trivial = some op changed the set of inner nodes (split, merge, grow or shrink, read off consecutive dumps); distinct by trace hash",
@@ -156,6 +166,7 @@ var specs = []*PropSpec{
 			m.Scan, m.Extremes, m.TopBottom, m.Range, m.Prefix, m.Size = 1, 3, 2, 2, 2, 1
 		}),
 		Families:  allFamilies,
+		Variants:  lightVariants,
 		Profiles:  []string{"fan", "fan", "fan", "dense"},
 		MinTrees:  2,
 		MaxTrees:  6,
@@ -172,6 +183,7 @@ var specs = []*PropSpec{
 			m.SearchAbsent, m.SearchPresent, m.DeleteAbsent = 0, 0, 1
 		}),
 		Families:  allFamilies,
+		Variants:  lightVariants,
 		Templates: []string{"fanupdown", "emptied"},
 		Rule: "for each sequence method a sequence value is obtained once, abandoned after a drawn number of elements (the yield function is called directly, so a late callback is observed instead of crashing), then iterated completely 1..3 times and compared with a complete pass over a freshly obtained sequence; " +
 			"non-trivial = the result has >= 3 elements, the stop position is strictly inside it and there are >= 2 re-iterations; distinct by trace hash",
@@ -185,6 +197,7 @@ var specs = []*PropSpec{
 			m.Range, m.Prefix, m.TopBottom, m.Extremes, m.Scan, m.Size, m.Iter = 3, 3, 2, 2, 2, 1, 3
 		}),
 		Families:  allFamilies,
+		Variants:  lightVariants,
 		Templates: []string{"longpath", "fanupdown"},
 		Rule: "histories over all kinds where every read-only call, every Delete of an absent key and every Insert of a present key is bracketed by two raw dumps of the whole node graph (all fields incl. dead lanes, inline bytes, index tables, addresses, leaf bytes, values, root, size) that must be byte-identical (Insert(present): identical but one leaf value); " +
 			"non-trivial = a bracketed call on a tree with at least 2 levels of inner nodes; distinct by trace hash",
